@@ -40,9 +40,17 @@ def _cargo(args, target_dir, rustflags=None, cwd=REPO, toolchain=None, extra_env
 def fastpasta(kind="rel"):
     """kind: rel = hooks on, fast release codegen; ship = hooks on, exact shipped profile (LTO);
     plain = hooks off; asan = AddressSanitizer (nightly)."""
+    if os.environ.get("VERIF_COVERAGE") and kind in ("rel", "plain", "ship"):
+        kind = "cov"  # tools/coverage.py: same sources, hooks on, plus -Cinstrument-coverage (measurement only, never a verdict)
     if kind in _done:
         return _done[kind]
     td = os.path.join(BUILD, kind)
+    if kind == "cov":
+        _cargo(["build", "--release", "-p", "fastpasta", "--offline"] + FAST, td, "--cfg fastpasta_verif -Cinstrument-coverage", toolchain="+nightly",
+               what="fastpasta coverage build")
+        exe = os.path.join(td, "release", "fastpasta")
+        _done[kind] = exe
+        return exe
     if kind == "rel":
         _cargo(["build", "--release", "-p", "fastpasta", "--offline"] + FAST, td, "--cfg fastpasta_verif", what="fastpasta hooks-on")
         exe = os.path.join(td, "release", "fastpasta")
@@ -71,8 +79,12 @@ def harness():
         return _done["inproc"]
     hdir = os.path.join(VERIF, "harness")
     shutil.copyfile(os.path.join(REPO, "Cargo.lock"), os.path.join(hdir, "Cargo.lock"))
-    td = os.path.join(BUILD, "inproc")
-    _cargo(["build", "--release", "--offline"], td, "--cfg fastpasta_verif", cwd=hdir, what="fp_inproc")
+    if os.environ.get("VERIF_COVERAGE"):
+        td = os.path.join(BUILD, "inproc-cov")
+        _cargo(["build", "--release", "--offline"], td, "--cfg fastpasta_verif -Cinstrument-coverage", cwd=hdir, toolchain="+nightly", what="fp_inproc coverage build")
+    else:
+        td = os.path.join(BUILD, "inproc")
+        _cargo(["build", "--release", "--offline"], td, "--cfg fastpasta_verif", cwd=hdir, what="fp_inproc")
     exe = os.path.join(td, "release", "fp_inproc")
     if not os.path.exists(exe):
         raise BuildError("harness binary missing: " + exe)
